@@ -390,6 +390,7 @@ struct Reread {
   std::vector<std::vector<long long>> nets;  // deg, then (cell, xo, yo)*
   long long hpwl = 0;
   bool hasHpwl = false;
+  std::vector<long long> py;  // nb_cells nb_nets nb_rows nb_pins row_height hpwl() as seen through the bindings
 };
 
 static Reread parseReread(const std::vector<std::string> &lines) {
@@ -403,6 +404,7 @@ static Reread parseReread(const std::vector<std::string> &lines) {
     else if (t[0] == "row") r.rows.push_back(nums(1));
     else if (t[0] == "net") r.nets.push_back(nums(3));
     else if (t[0] == "hpwl") { r.hpwl = atoll(t[1].c_str()); r.hasHpwl = true; }
+    else if (t[0] == "py") r.py = nums(1);
     else if (t[0] == "end") r.ok = true;
   }
   return r;
@@ -440,6 +442,14 @@ static std::string compareRoundTrip(const Circuit &c, long long hp, const Reread
         return e.str();
       }
     }
+  }
+  {
+    // read-only properties and hpwl() of the Python object are bound to the C++ entities of the same name
+    const char *names[] = {"nb_cells", "nb_nets", "nb_rows", "nb_pins", "row_height", "hpwl()"};
+    long long want[] = {c.nbCells(), c.nbNets(), c.nbRows(), c.nbPins(), c.rowHeight(), hp};
+    if (r.py.size() != 6) return "the re-read circuit does not report its counts";
+    for (int i = 0; i < 6; ++i)
+      if (r.py[i] != want[i]) { e << "Python-visible " << names[i] << " of the re-read circuit is " << r.py[i] << ", the C++ value on the original is " << want[i]; return e.str(); }
   }
   if (!r.hasHpwl || r.hpwl != hp) { e << "wirelength of the re-read circuit is " << r.hpwl << ", Circuit::hpwl() of the original is " << hp; return e.str(); }
   return "";
